@@ -23,9 +23,9 @@ import numpy as np
 
 ID = "C07"
 LEVEL = "exploration"
-RULE = ("cases = (symmetric model) x (grid compatible with its group) x (calculator batch: all StaticCalculator classes | "
-        "all DynamicCalculator classes incl. SDCT terms and the SDCT multi-term sums | TabulatorAll of every Tabulator "
-        "class | tetrahedron variants); classes are found by introspection and kept when the model provides their "
+RULE = ("cases = (symmetric model) x (grid compatible with its group) x (calculator class: every StaticCalculator class | "
+        "every DynamicCalculator class incl. SDCT terms and the SDCT multi-term sums | TabulatorAll of Energy + every Tabulator "
+        "class | tetrahedron variants of the static ones), each with its constructor variants; classes are found by introspection and kept when the model provides their "
         "matrices; each case makes three run() calls (irreducible+symmetrised, full unsymmetrised, full unsymmetrised on "
         "a symmetry-broken sibling for the scale) and compares every calculator, all tensor components and energies; "
         "tabulations also per k on the full grid; non-trivial keys = (model, calculator) for which the group has >1 "
@@ -36,9 +36,10 @@ ASSUMPTIONS = [
     "orbitals of the hand-symmetrised models are scalar functions at the origin (or on inversion centres with parities): "
     "no p/d orbital representations, no non-symmorphic operations",
     "tolerance 1e-8 of the natural scale of the per-K contributions (see module docstring)",
-    "tetra=True is compared with a two-grid criterion (difference <= 2% of the scale and not growing from N to 2N) because the "
-    "tetrahedron split of a cell is not invariant under the point group; only in the thorough tier, Fermi-sea and "
-    "Fermi-surface static calculators",
+    "tetra=True cannot be compared exactly: the tetrahedron split of a cell is not invariant under the point group, so the two "
+    "sides agree only to discretisation order (observed 0.5-2% of the scale on the doubled grid, anything between 0 and 50% on the "
+    "coarse one, not monotonic); the thorough tier therefore only requires |diff| <= 5% of the scale on the doubled grid "
+    "(a smoke test that catches a component symmetrised away or doubled, not a subtle error)",
     "Fermi levels are chosen off every band energy of the grid (irrational offsets); adaptive refinement is not used (C10)",
     "calculators whose constructor or first evaluation raises for reasons unrelated to symmetry "
     "(e.g. tabulate.DerOrbitalMoment_test refers to a missing formula) are listed in coverage.not_runnable",
@@ -177,6 +178,13 @@ def build_model(name, seed):
 
 
 def band_range(system):
+    if ("band_range", id(system)) in _CACHE:
+        return _CACHE[("band_range", id(system))]
+    _CACHE[("band_range", id(system))] = _band_range(system)
+    return _CACHE[("band_range", id(system))]
+
+
+def _band_range(system):
     import wannierberri as wb
     from wbmc.engine import quiet
     E = []
@@ -331,6 +339,13 @@ def do_run(system, NK, NKFFT, calcs, irred, tmp, tag):
 # cases
 # ----------------------------------------------------------------------------------------------
 
+def setup(tier, seed):
+    """build (and verify) every model once in the parent; the forked workers inherit the cache"""
+    for n in (QUICK_MODELS if tier == "quick" else tuple(MODELS)):
+        s, sib, meta = build_model(n, seed)
+        band_range(s)
+
+
 def cases(tier, seed):
     names = QUICK_MODELS if tier == "quick" else tuple(MODELS)
     for n in names:
@@ -339,11 +354,13 @@ def cases(tier, seed):
         grids = MODELS[n]["grids"] if tier == "thorough" else MODELS[n]["grids"][:1]
         for ig, (NK, FFT) in enumerate(grids):
             for b in BATCHES_QUICK:
-                yield {"kind": "run", "model": n, "NK": list(NK), "NKFFT": list(FFT), "batch": b}
+                for cname in calculator_classes(b):
+                    yield {"kind": "run", "model": n, "NK": list(NK), "NKFFT": list(FFT), "batch": b, "calc": cname}
     if tier == "thorough":
         for n in TETRA_MODELS:
             NK, FFT = MODELS[n]["grids"][0]
-            yield {"kind": "tetra", "model": n, "NK": list(NK), "NKFFT": list(FFT), "batch": "tetra"}
+            for cname in calculator_classes("tetra"):
+                yield {"kind": "tetra", "model": n, "NK": list(NK), "NKFFT": list(FFT), "batch": "tetra", "calc": cname}
 
 
 def mean_norm(store, q=None):
@@ -384,38 +401,64 @@ def run_case(case, seed):
 
 def attribute_to_degenerate_k(system, NK, make_calc, extract):
     """After a mismatch: evaluate the calculator k point by k point on the full grid and test the covariance
-    v(g k) = T_g v(k) (the library's own Result.transform) for every group element.  Returns
-    (n_degenerate_k, worst violation on k points WITHOUT an exact degeneracy, worst on degenerate ones), relative to
-    max_k |v(k)|.  A formula that is not invariant under unitary mixing inside an exactly degenerate group (band-diagonal
-    velocities, generalised derivatives) has an arbitrary value at such k points; that is gauge dependence (C04's
-    subject), and it is told apart here from a wrong transformation law, which shows up at generic k points."""
+    v(g k) = T_g v(k) (the library's own Result.transform) for every group element.  The mismatch is attributed to
+    gauge dependence at exactly degenerate k points (C04's subject, reported under its own key) only if
+      (i)  the covariance holds at every k point without an exact degeneracy, and
+      (ii) at every degenerate k point where it fails the calculator's value demonstrably changes when the
+           eigenvectors of each degenerate group are mixed by a fixed unitary (zoo.unitary_alphabet).
+    A wrong transformation law shows up at generic k points, or at degenerate ones for a gauge-invariant value, and
+    keeps the plain key.  Returns (is_gauge, text)."""
     from wannierberri.grid import Grid
     from wannierberri.data_K import get_data_k_class_from_system
+    from wbmc import zoo
     dcls = get_data_k_class_from_system(system)
     grid = Grid(system, NK=1, NKFFT=1)
     pg = system.pointgroup
+    NKa = np.array(NK)
     ks = [np.array([i / NK[0], j / NK[1], l / NK[2]]) for i in range(NK[0]) for j in range(NK[1]) for l in range(NK[2])]
+
+    def groups_of(E):
+        g = [[0]]
+        for i in range(1, len(E)):
+            (g[-1].append(i) if E[i] - E[i - 1] < 1e-8 else g.append([i]))
+        return [(x[0], x[-1] + 1) for x in g if len(x) > 1]
+
+    def value(k, rotate=False):
+        d = dcls(system, grid=grid, k_list=np.array([k]))
+        gr = groups_of(d.E_K[0])
+        if rotate:
+            for a_, b_ in gr:
+                alph = zoo.unitary_alphabet(b_ - a_)
+                U = alph.get("su2", alph.get("generic"))
+                d._UU[0][:, a_:b_] = d._UU[0][:, a_:b_] @ U
+        return make_calc()(d), bool(gr)
     vals, degen = {}, {}
     for k in ks:
-        d = dcls(system, grid=grid, k_list=np.array([k]))
-        res = make_calc()(d)
-        E = np.sort(d.E_K[0])
-        degen[tuple(k)] = bool(len(E) > 1 and np.min(np.diff(E)) < 1e-8)
-        vals[tuple(k)] = res
+        vals[tuple(k)], degen[tuple(k)] = value(k)
     scale = max([1e-300] + [float(np.abs(extract(v)).max()) for v in vals.values()])
     worst = {False: 0.0, True: 0.0}
+    bad_deg = set()
     for k in ks:
         for sym in pg.symmetries:
             k2 = sym.transform_reduced_vector(k, system.recip_lattice)
-            k2 = np.round((k2 % 1) * np.array(NK)).astype(int) % np.array(NK)
-            k2 = tuple(k2 / np.array(NK))
-            key2 = min(vals, key=lambda q: np.abs(np.array(q) - np.array(k2)).max())
+            k2 = tuple((np.round((k2 % 1) * NKa).astype(int) % NKa) / NKa)
             exp = extract(vals[tuple(k)].transform(sym))
-            got = extract(vals[key2])
+            got = extract(vals[k2])
             err = float(np.abs(got - exp).max()) / scale
-            dg = degen[tuple(k)] or degen[key2]
+            dg = degen[tuple(k)] or degen[k2]
             worst[dg] = max(worst[dg], err)
-    return sum(degen.values()), worst[False], worst[True]
+            if dg and err > TOL:
+                bad_deg.update(q for q in (tuple(k), k2) if degen[q])
+    gauge_dep = {}
+    for q in sorted(bad_deg):
+        v2, _ = value(np.array(q), rotate=True)
+        gauge_dep[q] = float(np.abs(extract(v2) - extract(vals[q])).max()) / scale
+    ndeg = sum(degen.values())
+    is_gauge = bool(ndeg > 0 and worst[False] <= TOL and bad_deg and all(v > TOL for v in gauge_dep.values()))
+    text = (f"[per-k covariance v(gk)=T_g v(k): {ndeg}/{len(ks)} grid points with exactly degenerate bands; worst violation "
+            f"{worst[False]:.1e} on the others, {worst[True]:.1e} on them; change of the value under a unitary mixing inside the "
+            f"degenerate groups at the violating points: min {min(gauge_dep.values(), default=0):.1e} max {max(gauge_dep.values(), default=0):.1e}]")
+    return is_gauge, text
 
 
 def run_batch(case, s, sib, meta, tmp):
@@ -425,6 +468,8 @@ def run_batch(case, s, sib, meta, tmp):
     batch = case["batch"]
     emin, emax = band_range(s)
     specs = make_calculators(batch, emin, emax)
+    if case.get("calc"):      # one calculator class per case (all its variants), so that one failure cannot mask another
+        specs = {k: v for k, v in specs.items() if k.split(":")[0] == case["calc"]}
     good, bad = probe(s, specs)
     good_sib, _ = probe(sib, specs)
     good = [g for g in good if g in good_sib]
@@ -466,12 +511,9 @@ def run_batch(case, s, sib, meta, tmp):
                 gauge, note = False, ""
                 if q in specs:
                     cls_, kw_ = specs[q]
-                    ndeg, w_gen, w_deg = attribute_to_degenerate_k(
+                    gauge, note = attribute_to_degenerate_k(
                         s, case["NK"], lambda: tabulate.TabulatorAll({q: cls_(**kw_)}, mode="grid"),
                         lambda r: r.results[q].data)
-                    gauge = ndeg > 0 and w_gen <= TOL and w_deg > TOL
-                    note = (f" [per-k covariance: {ndeg} grid points with exactly degenerate bands, worst violation "
-                            f"{w_gen:.1e} on the others, {w_deg:.1e} on them]")
                 failures.append((("irr!=full:gauge_dependent_at_degenerate_k:tab:" if gauge else "irr!=full:tab:") + q.split(':')[0],
                                  note + f"{q}: per-k value differs at k={ta.kpoints[i[0]].tolist()} band={int(i[1])} comp={list(map(int, i[2:]))}: "
                                  f"irr={A[i]:.8g} full={B[i]:.8g} |diff|/scale={rel:.2e} scale={scale:.3g}"))
@@ -491,12 +533,10 @@ def run_batch(case, s, sib, meta, tmp):
             obs["worst"][nm] = rel
             if rel > TOL:
                 cls_, kw_ = specs[nm]
-                ndeg, w_gen, w_deg = attribute_to_degenerate_k(s, case["NK"], lambda: cls_(**kw_), lambda r: r.data)
-                gauge = ndeg > 0 and w_gen <= TOL and w_deg > TOL
+                gauge, note = attribute_to_degenerate_k(s, case["NK"], lambda: cls_(**kw_), lambda r: r.data)
                 failures.append((("irr!=full:gauge_dependent_at_degenerate_k:" if gauge else "irr!=full:") + nm.split(':')[0],
                                  f"{nm}: at index(Ef[,omega],comp)={where[0]} irr={where[1]:.8g} full={where[2]:.8g} "
-                                 f"|diff|/scale={rel:.2e} scale={scale:.3g} [per-k covariance v(gk)=T_g v(k): {ndeg} grid points "
-                                 f"with exactly degenerate bands, worst violation {w_gen:.1e} on the others, {w_deg:.1e} on them]"))
+                                 f"|diff|/scale={rel:.2e} scale={scale:.3g} " + note))
             if reduced and float(np.abs(b.data).max()) > 1e-6 * scale:
                 nontrivial.append((case["model"], nm))
     if failures:
@@ -516,9 +556,13 @@ def run_tetra(case, s, sib, meta, tmp):
     from wannierberri.result.result import VoidResult
     emin, emax = band_range(s)
     specs = make_calculators("tetra", emin, emax)
-    good, bad = probe(s, specs)
-    good_sib, _ = probe(sib, specs)
-    good = [g for g in good if g in good_sib]
+    specs_probe = make_calculators("static", emin, emax)     # evaluate_k cannot provide tetrahedron weights
+    if case.get("calc"):
+        specs = {k: v for k, v in specs.items() if k.split(":")[0] == case["calc"]}
+        specs_probe = {k: v for k, v in specs_probe.items() if k.split(":")[0] == case["calc"]}
+    good, bad = probe(s, specs_probe)
+    if not good:
+        return {"ok": True, "nontrivial": False, "obs": {"not_runnable": bad}}
     diffs = {}
     for mult in (1, 2):
         NK = [n * mult if n > 1 else 1 for n in case["NK"]]
@@ -536,7 +580,7 @@ def run_tetra(case, s, sib, meta, tmp):
     failures, nontrivial = [], []
     for nm, (d1, d2) in diffs.items():
         nontrivial.append((case["model"], "tetra:" + nm))
-        if d2[0] > 0.02 or (d2[0] > max(1.5 * d1[0], 1e-6)):
+        if d2[0] > 0.05:
             failures.append((f"irr!=full:tetra:{nm.split(':')[0]}",
                              f"{nm}: |diff|/scale N={d1[0]:.3e} 2N={d2[0]:.3e} at {d2[1]}"))
     if failures:
